@@ -21,7 +21,7 @@ import core
 PRELUDE = '''From Coq Require Import ZArith QArith Qminmax List Bool.
 From DK Require Import Num NumQ Vec.
 From DK.Gen Require Import Kernels.
-From DK.Model Require Import Leaf Fn Dev Tree Projection PyOps SetOps FnOps ConOps Solve SolveOps NpOps ProbeEnc.
+From DK.Model Require Import Leaf Fn Dev Tree Projection PyOps SetOps FnOps ConOps Solve SolveOps NpOps Loader LoaderOps ProbeEnc.
 Require DK.Gen.Classes.
 Require DK.Gen.%(name)s.
 Require DKC.%(name)sNew.
@@ -208,8 +208,26 @@ BATTERIES['Utils'] = [
   ('base_soc', 'List.concat (map (fun s => enc_v (@M@.base_soc_gen (5#2) s 4) ++ enc_v (@M@.base_soc_gen (-1) s 1) ++ enc_v (@M@.base_soc_gen 3 s 0)) [1; 1#2; 3#4])'),
   ('soc', 'List.concat (map (fun se => List.concat (map (fun r => enc_v (@M@.soc_gen r (fst se) (snd se))) [va; vb; vc; [-3; 2; -3; 0; 1]; [1#2]; []])) [(1, 1); (1#2, 3#4); (3#4, 1#2); (1, 1#2); (1#2, -2)])'),
 ]
-EXTRA = {'Solve': SOLVE, 'Constraints': KIDS + CONS, 'DeviceSet': KIDS, 'MFDeviceSet': KIDS, 'Functions': KIDS}
-NAMES = {'projection': 'Projection', 'thermal': 'Thermal', 'deviceset': 'DeviceSet', 'mfdeviceset': 'MFDeviceSet', 'functions': 'Functions', 'classes': 'Classes', 'storage': 'Storage', 'constraints': 'Constraints', 'solve': 'Solve', 'utils': 'Utils'}
+LOADERS = '''
+Definition enc_out (r : outcome (list Q)) : list Q := match r with Accept v => 0 :: enc_v v | RaiseValueError => [1] | RaiseOther => [2] end.
+Definition enc_cb (c : cbound Q) : list Q := match c with (lo, hi, s, e) => [lo; hi; inject_Z (Z.of_nat s); inject_Z (Z.of_nat e)] end.
+Definition runsQ : list (runs Q) := [[(0%nat, 1); (3%nat, 3); (1%nat, 2)]; [(2%nat, 5)]; [(0%nat, 7)]; [(0%nat, 1); (5%nat, 2); (9%nat, 4)];
+  [(4%nat, 1); (0%nat, 2); (2%nat, 3); (1%nat, 4)]; []; [(1%nat, 1); (0%nat, 2)]].
+Definition runsP : list (runs (Q * Q)) := [[(0%nat, (1, 2)); (3%nat, (3, 4)); (1%nat, (-1, 0))]; [(2%nat, (5, 5))]; [(0%nat, (7, 8))];
+  [(4%nat, (1, 1)); (0%nat, (2, 3)); (2%nat, (3, 5)); (9%nat, (0, 1))]; []].
+Definition bnds : list (list (param Q)) := [[PS 2; PS 5]; [PS (-1); PV [1; 2; 3; 4; 5; 6]]; [PV [1; 2; 3; 4; 5; 6]; PV [2; 3; 4; 5; 6; 7]];
+  [PS 1; PS 2; PS 3; PS 4; PS 5; PS 6]; [PS 4]; []; [PS 1; PS 2; PS 3]].
+Definition masks : list (list Q) := [[1; 0; 1; 0; 0; 1]; [0; 0; 0; 0; 0; 0]; [1; 1; 1]; []; [1#2; 2; 0; 1; 1; 1]].
+Definition ons : list (list nat) := [[]; [1; 2]; [0; 0; 4; 5]; [3; 9]; [2; 1]; [1; 3; 2; 4]; [5; 5; 0; 1; 3; 3]]%nat.
+'''
+BATTERIES['Loaders'] = [
+  ('run_to_array', 'List.concat (map (fun b => List.concat (map (fun l => enc_out (@M@.run_to_array_gen 0 b l)) runsQ)) [0%nat; 1%nat; 5%nat; 8%nat])'),
+  ('run_to_cbounds_array', 'List.concat (map (fun b => List.concat (map (fun l => List.concat (map enc_cb (@M@.run_to_cbounds_array_gen b l))) runsP)) [0%nat; 1%nat; 5%nat; 8%nat])'),
+  ('care2bounds', 'List.concat (map (fun m => List.concat (map (fun b => enc_cube (@M@.care2bounds_gen m b)) bnds)) masks)'),
+  ('on2bounds', 'List.concat (map (fun l => List.concat (map (fun on => List.concat (map (fun b => enc_cube (@M@.on2bounds_gen l on b)) bnds)) ons)) [6%nat; 3%nat; 0%nat])'),
+]
+EXTRA = {'Loaders': LOADERS, 'Solve': SOLVE, 'Constraints': KIDS + CONS, 'DeviceSet': KIDS, 'MFDeviceSet': KIDS, 'Functions': KIDS}
+NAMES = {'projection': 'Projection', 'thermal': 'Thermal', 'deviceset': 'DeviceSet', 'mfdeviceset': 'MFDeviceSet', 'functions': 'Functions', 'classes': 'Classes', 'storage': 'Storage', 'constraints': 'Constraints', 'solve': 'Solve', 'utils': 'Utils', 'loaders': 'Loaders'}
 
 
 def supported(w):
